@@ -19,7 +19,8 @@ from vlib.runner import CaseFailed, Result, Violation, sut_frames
 from vlib.sut import load
 
 ASSETS = ['EQ:A', 'EQ:AB', 'EQ:Brk.b', 'EQ:C', 'EQ:Z9']
-TODS = [(0, 0, 0), (14, 29, 59), (14, 30, 0), (14, 30, 1), (17, 0, 0), (20, 59, 59), (21, 0, 0), (21, 0, 1), (23, 59, 0)]
+TODS = [(0, 0, 0), (14, 29, 59), (14, 30, 0), (14, 30, 1), (17, 0, 0), (20, 59, 59), (21, 0, 0), (21, 0, 1), (23, 59, 0),
+        (14, 29, 59, 600000), (14, 29, 59, 999999), (20, 59, 59, 600000), (20, 59, 59, 999999), (21, 0, 0, 1)]      # incl. sub-second
 OPEN_TODS = [(14, 30, 0), (14, 30, 1), (15, 45, 10), (17, 0, 0), (20, 59, 59)]
 SMALL_AMOUNTS = [0.0, 0.01, 0.5, 1.0, 1.5]
 
@@ -454,7 +455,9 @@ class Harness(object):
     def op_clock(self, op, before):
         _, ddays, tod = op
         d = self.t.date() + D.timedelta(days=ddays)
-        nt = pd.Timestamp(D.datetime(d.year, d.month, d.day, tod[0], tod[1], tod[2]), tz='UTC')
+        nt = pd.Timestamp(D.datetime(d.year, d.month, d.day, tod[0], tod[1], tod[2], tod[3] if len(tod) > 3 else 0), tz='UTC')
+        if len(tod) > 3 and tod[3]:
+            self.flags.add('sub_second_instant')
         if nt < self.t:
             nt = self.t
             self.flags.add('same_instant_again')
@@ -510,6 +513,12 @@ class Harness(object):
             if got != own and not any(isinstance(x, float) and x != x for x in got[:3] + own[:3]):
                 raise Violation('broker reports (cash, market value, equity, holdings) of %s as %r; the portfolio itself '
                                 'reports %r' % (pid, got, own))
+        eq_d, mv_d = b.get_account_total_equity(), b.get_account_total_market_value()
+        for pid in self.pids:
+            port = b.portfolios[pid]
+            for what, dct, own in (('equity', eq_d, port.total_equity), ('market value', mv_d, port.total_market_value)):
+                if pid in dct and dct[pid] != own and not (dct[pid] != dct[pid] and own != own):
+                    raise Violation('account-level %s report lists %s with %r; that portfolio reports %r' % (what, pid, dct[pid], own))
         if len(self.txlog) != n_tx:
             raise Violation('read-only queries at %s filled %s' % (self.t, [(p, t.asset, t.quantity) for p, t in self.txlog[n_tx:]]))
         d = diff_snap(snap, snapshot(b))
@@ -522,7 +531,7 @@ class Harness(object):
                  'unk_pwd', 'dup', 'dup_int', 'unk_order', 'cur', 'cur_ctor', 'neg_init', 'unk_get_cash', 'unk_get_mv',
                  'unk_get_equity', 'unk_get_dict', 'early_sub', 'early_wd', 'early_txn', 'early_mark', 'neg_mark',
                  'p_neg_sub', 'p_neg_wd', 'p_over_wd', 'multi_unk_neg', 'lead_psub', 'lead_pwd', 'stale_update', 'dup_named',
-                 'stale_mark', 'early_mark_nan', 'neg_quote_update', 'zero_mark']
+                 'stale_mark', 'early_mark_nan', 'neg_quote_update', 'zero_mark', 'unk_order_int']
 
     BAD_CODES = ['XYZ', 'gbp', 'Eur', 'usd', 'CHF', '', 'US', 'USD ', None]
 
@@ -549,6 +558,11 @@ class Harness(object):
             call, exp = (lambda: b.subscribe_funds_to_portfolio('nope', min(x, b.get_account_cash_balance(cur)))), KE
         elif kind == 'unk_pwd':
             call, exp = (lambda: b.withdraw_funds_from_portfolio('nope', x)), KE
+        elif kind == 'unk_order_int':
+            # portfolio '1234' (a string id) exists; an order under the integer 1234 names no portfolio
+            if '1234' not in b.portfolios:
+                return
+            call, exp = (lambda: b.submit_order(1234, q.Order(b.current_dt, self.assets[0], 5))), KE
         elif kind == 'unk_order':
             call, exp = (lambda: b.submit_order('nope', q.Order(b.current_dt, self.assets[0], 5))), KE
         elif kind == 'cur':
@@ -683,6 +697,11 @@ class Harness(object):
             self.cash[pid] += F(x)
             self.hist[pid].append(('subscription', F(x), self.cash[pid]))
             self._bump(pid, F(x), self.cash[pid])
+            if not any(p_.pos_handler.positions for p_ in b.portfolios.values()) and not any(self.pend[p_] for p_ in self.pids):
+                # (nothing to re-mark, nothing to fill: an update at the broker's current time changes nothing - and does
+                # not make the portfolio forget that its own clock is ahead)
+                b.update(b.current_dt)
+                self.flags.add('update_while_portfolio_clock_leads')
             before = snapshot(b)
             if kind == 'lead_psub':
                 amt = min(1.0, b.get_account_cash_balance(cur))
